@@ -241,6 +241,21 @@ where
         staged_proposal: QueuedProposal,
         group_id: &GroupId,
     ) -> Result<MessageProcessingResult> {
+        // A commit cannot be built while another one is pending, nor when the proposal store already
+        // asks for the removal of our own leaf (a commit cannot remove its author). Deciding this only
+        // after the proposal was stored would fail the call with the proposal left behind in the store
+        // (an "unprocessable" event with an effect), so in that case keep it as a pending proposal.
+        let own_leaf_index = mls_group.own_leaf_index();
+        let own_removal_queued = mls_group.pending_proposals().any(|p| {
+            matches!(p.proposal(), Proposal::Remove(r) if r.removed() == own_leaf_index)
+        });
+        if mls_group.pending_commit().is_some() || own_removal_queued {
+            self.store_pending_proposal(mls_group, event, staged_proposal, group_id)?;
+            return Ok(MessageProcessingResult::PendingProposal {
+                mls_group_id: group_id.clone(),
+            });
+        }
+
         mls_group
             .store_pending_proposal(self.provider.storage(), staged_proposal)
             .map_err(|_e| Error::Message("Failed to store pending proposal".to_string()))?;
